@@ -47,8 +47,13 @@ def build_system(spec_system, rng, use_protein_selector):
         # gets the r-th block of an increasing key list; the INSERTION order of the atoms is shuffled independently, and the
         # residue IDENTITIES (chain, resid, insertion code, resname) restart / decrease / wrap / carry insertion codes
         keys = sorted(rng.sample(range(0, 40), sum(natoms))) if rng.random() < 0.7 else list(range(sum(natoms)))
+        nameless = None
         if use_protein_selector:
             names = list(X.PROTEIN_NAMES) if m['sel'] else ['LIG', 'XYZ']
+            if not m['sel'] and m['nres'] >= 1 and rng.random() < 0.4:
+                # not a protein either: protein residue names, but some / all of the atoms carry NO residue name
+                names = list(X.PROTEIN_NAMES)
+                nameless = rng.choice(['some', 'all'])
         else:
             names = ['ALA', 'LIG', 'XYZ', 'GLY']
         rng.shuffle(names)
@@ -62,6 +67,10 @@ def build_system(spec_system, rng, use_protein_selector):
                                             atomname='A%d' % a, residx=r)))
                 k += 1
         rng.shuffle(atoms)
+        if nameless:
+            for _key, attrs in (atoms if nameless == 'all' else atoms[:rng.randint(1, len(atoms))]):
+                del attrs['resname']
+            STATS['nameless'] = STATS.get('nameless', 0) + 1
         for key, attrs in atoms:
             mol.add_node(key, **attrs)
         system.add_molecule(mol)
